@@ -3,7 +3,7 @@
     (same answer for the same operation; malformed envelopes refused, nothing executed).
     Executable only (extracted / vm_compute). *)
 From Coq Require Import List NArith ZArith Bool String.
-From ApiFu Require Import Base.Sexp Transport.EnvelopeModel Transport.JsonText Transport.EnvelopeSpec Transport.WireModel Transport.FrameText Transport.InitModel.
+From ApiFu Require Import Base.Sexp Transport.EnvelopeModel Transport.JsonText Transport.EnvelopeSpec Transport.WireModel Transport.FrameText Transport.InitModel Transport.EnvelopeCompose.
 Import ListNotations.
 Open Scope string_scope.
 
@@ -440,7 +440,24 @@ Definition check_sub (T : ntable) (o : op) (s : sub) : option sexp :=
   else None.
 
 (** ** same answer for the same operation *)
-Record entry := { en_name : string; en_sub : nat; en_op : op; en_obs : obs }.
+(** how PersistedQueryExtension sees the request's extensions (C18's [ext] through [pq_view]):
+    requests are grouped by operation AND this view — a persisted-query lookup is another request *)
+Definition pq_key (m : mres) : option (bool * bytes) :=
+  match m with
+  | MAccept _ x => match pq_view x with
+                   | Some e => Some (Api.PersistedQueryModel.ext_version_one e, Api.PersistedQueryModel.ext_hash e)
+                   | None => None
+                   end
+  | _ => None
+  end.
+Definition pq_key_eqb (a b : option (bool * bytes)) : bool :=
+  match a, b with
+  | None, None => true
+  | Some (v, h), Some (v', h') => Bool.eqb v v' && bytes_eqb h h'
+  | _, _ => false
+  end.
+
+Record entry := { en_name : string; en_sub : nat; en_op : op; en_pq : option (bool * bytes); en_obs : obs }.
 
 Fixpoint entries (T : ntable) (i : nat) (ss : list sub) : list entry :=
   match ss with
@@ -448,7 +465,7 @@ Fixpoint entries (T : ntable) (i : nat) (ss : list sub) : list entry :=
   | s :: r =>
       List.app
         match accepted_op (run_model T (s_env s)) with
-        | Some o => map (fun ob => {| en_name := name_of s; en_sub := i; en_op := o; en_obs := ob |}) (s_obs s)
+        | Some o => map (fun ob => {| en_name := name_of s; en_sub := i; en_op := o; en_pq := pq_key (run_model T (s_env s)); en_obs := ob |}) (s_obs s)
         | None => []
         end
         (entries T (S i) r)
@@ -462,7 +479,7 @@ Fixpoint check_same (es : list entry) : option sexp :=
   match es with
   | [] => None
   | e :: r =>
-      match first_some (fun e' => if op_eqb (en_op e) (en_op e') && negb (same_answer (en_obs e) (en_obs e'))
+      match first_some (fun e' => if op_eqb (en_op e) (en_op e') && pq_key_eqb (en_pq e) (en_pq e') && negb (same_answer (en_obs e) (en_obs e'))
                                   then Some (v_oracle_fail (differs_key e e') []) else None) r with
       | Some v => Some v
       | None => check_same r
